@@ -8,6 +8,9 @@ VERIF = os.path.dirname(os.path.dirname(os.path.abspath(__file__)))
 SEEDED = os.path.join(VERIF, "seeded")
 
 OVERRIDE_STATUS = {
+    "C18-7": ("superseded", "neutralised by repo fix d539c28 (PathForChecksum accepts letters and digits only): the change deletes the cache object of a mismatching copy, "
+                            "which escaped the cache only through a recorded checksum that is a path; with such checksums rejected the author's demonstration passes with and "
+                            "without the change. The hostile-checksum stream that exposed the underlying defect of the pinned tree was written because of this change. Kept for the record, not counted."),
     "C04-1": ("superseded", "neutralised by repo fix ee5c958 (a link into the cache is accepted on retry): the author's demonstration "
                             "passes with and without the change on the current tree, i.e. the property holds with the change applied; "
                             "the check rightly stays quiet. Kept for the record, not counted."),
@@ -85,8 +88,12 @@ def main():
                 "demonstration fail while the unchanged tree passes it — confirmed by `tools/mutant_eval.py` in a scratch worktree, never in /repo.\n"
                 "Ids <Cxx>-1, -2: first round of seeding (written against the tree before the repairs; where a repair touched the same lines the change was\n"
                 "ported by hand, see the remarks below); <Cxx>-3, -4: second round, written against HEAD 1083010 by authors who were given the titles of\n"
-                "round 1 to do something different. Regenerate this file with `tools/seeded_summary.py` after `tools/mutant_eval.py <dir with the agents' output>`\n"
-                "(`MUT_OFFSET=2` for round 2).\n\n"
+                "round 1 to do something different; <Cxx>-5, -6: third round (against a7bf7f5, titles of rounds 1-2 given); <Cxx>-7, -8: fourth round (against\n"
+                "a7bf7f5, titles of rounds 1-3 given, asked for other commands, option / configuration / path handling and interactions between commands).\n"
+                "Regenerate this file with `tools/seeded_summary.py` after `tools/mutant_eval.py <dir with the agents' output>` (`MUT_OFFSET=2|4|6` for rounds 2|3|4;\n"
+                "`MUT_CHECK_ONLY=1` re-runs only the check for changes validated before). A MISSED entry is a change the quick tier does not detect: C15-7 adds a new\n"
+                "configuration field (`copy: true`) whose effect exists only when that field is set — a check cannot know options that do not exist in the tree it\n"
+                "was written for (boolean FLAGS are discovered from the help texts, configuration fields are not).\n\n"
                 "| id | status | change | quick check (seed 1) |\n|---|---|---|---|\n")
         for d, st, title, how, line in rows:
             f.write("| %s | %s | %s | %s |\n" % (d, st, title.replace("|", "/"), how))
